@@ -375,11 +375,16 @@ func (cr *checkRun) report(evPath string, t0 time.Time, seed int, quiet bool, ve
 		"undecided":                undecided,
 	}
 	var bnd []interface{}
-	nb := 0
+	nb, nstand := 0, 0
 	for _, br := range cr.bounded {
 		ent := map[string]interface{}{"name": br.Item.Name, "what": br.Item.What, "bound": br.Item.Bound, "seconds": br.Seconds, "passed": br.OK, "labelled": "bounded stand-in (not a proof; not counted in discharged)"}
+		if br.Item.Role == "cross-check" {
+			ent["labelled"] = "bounded cross-check run next to the proof (also the replay platform for counterexamples); not counted in discharged"
+		} else {
+			nstand++
+		}
 		if br.Report != nil {
-			for _, k := range []string{"cases", "distinct_nontrivial", "samples", "max_players", "max_amount"} {
+			for _, k := range []string{"cases", "distinct_nontrivial", "samples", "max_players", "max_amount", "states", "transitions", "refusal_attempts", "closed_hands", "configs", "max_depth", "bound"} {
 				if v, ok := br.Report[k]; ok {
 					ent[k] = v
 				}
@@ -406,6 +411,8 @@ func (cr *checkRun) report(evPath string, t0 time.Time, seed int, quiet bool, ve
 	}
 	if nb > 0 {
 		cov["bounded"] = bnd
+	}
+	if nstand > 0 {
 		ev.Level = "other"
 		cov["explanation"] = "hybrid: the obligations listed under obligations/discharged are proved by contract-based deductive verification of the real code; the clauses no contract within reach could discharge are covered by the bounded stand-ins listed under 'bounded' (exhaustive small-scope runs of the real code against an oracle written from the statement) — bounded, not proved"
 	}
@@ -418,6 +425,26 @@ func (cr *checkRun) report(evPath string, t0 time.Time, seed int, quiet bool, ve
 		code = 2
 		ev.Level = "other"
 		cov["explanation"] = "some functions could not be decided on this tree (outside the verified subset, contract binding broken, or vacuous contract); no verdict"
+	}
+	{
+		// one line per finding id
+		seenID := map[string]bool{}
+		var ded []string
+		for _, l := range knownSeen {
+			id := l
+			if a := strings.Index(l, " ["); a >= 0 {
+				if b := strings.IndexAny(l[a+2:], ";]"); b >= 0 {
+					id = l[a+2 : a+2+b]
+				}
+			}
+			if seenID[id] {
+				continue
+			}
+			seenID[id] = true
+			ded = append(ded, l)
+		}
+		knownSeen = ded
+		cov["known_findings_seen"] = knownSeen
 	}
 	for _, l := range knownSeen {
 		fmt.Println(l)
